@@ -14,8 +14,9 @@ type Plan struct {
 	EntityCap    int        `json:"entityCap"`
 	MaxOpen      int        `json:"maxOpen"`
 	FullEvery    int        `json:"fullEvery"`
-	LockedYield  int        `json:"lockedYield"`  // percent of locked mutator turns handed to the iterator instead
-	RelFilterPct int        `json:"relFilterPct"` // percent of new filters that are relation filters
+	LockedYield  int        `json:"lockedYield"`           // percent of locked mutator turns handed to the iterator instead
+	RelFilterPct int        `json:"relFilterPct"`          // percent of new filters that are relation filters
+	FillToLimit  bool       `json:"fillToLimit,omitempty"` // register filler types up to MaskTotalBits and one beyond
 	Steps        int        `json:"steps"`
 
 	Weights map[string]int `json:"weights"`
@@ -325,6 +326,7 @@ func tuneProfile(p *Plan, r *Rng, thorough bool) {
 		p.CachedPermille = []int{300, 900}[r.Intn(2)]
 	case "C16":
 		w["regtype"] = 10
+		p.FillToLimit = r.Intn(3) == 0
 		for i := range p.Types {
 			p.Types[i].Late = r.Intn(2) == 0
 		}
